@@ -24,7 +24,7 @@ def meta(tier):
         'rule': '(i) field range: width in 1..17,24,31,32,33,63,64 x byte_align x endianness x opcode width in {1,3,4,8} x operand kind '
                 '(numeric argument, indirect-register offset, index of an indexed register, numeric_bytecode code) x values '
                 '{0,1,2^(w-1)-1,2^(w-1),2^w-1,2^w,-1,-2^(w-1),-2^(w-1)-1}; (ii) numeric_bytecode min/max grid x values min-1..max+1; '
-                '(iii) numeric enumerations: every key set within {0..4} x values -1..5; (iv) address operands / valid_address numerics '
+                '(iii) numeric enumerations: every key set within {0..4} x values -1..6, as a code enumeration, an argument enumeration, and both at once with different key sets; (iv) address operands / valid_address numerics '
                 'against zones on a grid (incl. redefined GLOBAL, named memory_zone) x values s-1,s,e,e+1; (v) sliced addresses: slice '
                 'width {4,8,12} x instruction address on both sides of a page boundary x targets in the same / neighbouring pages; (v-b) slice_lsb without match_address_msb: targets inside / beyond the field width from instruction addresses in several pages; '
                 '(vi) relative addresses: (min,max) grid x offset_from_instruction_end x instruction size {2,3,4} x address x every '
@@ -34,7 +34,7 @@ def meta(tier):
                         'relative-address targets are kept inside GLOBAL (the statement does not list a zone constraint for them)',
                         'reference encoding: mc/refenc.py'],
         'floors': {'evaluations': 1000, 'nontrivial': 1000, 'statuses': ['OK', 'REJECT'],
-                   'clauses': ['range', 'minmax', 'enumeration', 'zone', 'slice', 'slice-only', 'relative', 'relative-in-macro']},
+                   'clauses': ['range', 'minmax', 'enumeration', 'zone', 'slice', 'slice-only', 'relative', 'relative-in-macro', 'range/in-a-row', 'minmax/in-a-row', 'enumeration/in-a-row']},
         'nshards': 64, 'xcheck': 16,
     }
 
@@ -68,6 +68,34 @@ def one(acc, isa, text, expect_bytes, clause, addr=0x200, consts=(), yaml=False,
 _NB = [0]
 
 
+def batch(acc, isa, items, clause, yaml=False, consts=()):
+    """The same statements once more, together in one program: all the accepted ones in a row (image = their codes in a row), and
+    that row followed by each rejected statement in turn (must be rejected): a constraint is enforced on every statement, whatever
+    was assembled before it."""
+    good = [(t, e) for t, e, _ in items if e is not None]
+    bad = [(t, w) for t, e, w in items if e is None]
+    head = [f'{k} = {v}' for k, v in consts] + ['.org 512']
+    if len(good) > 1:
+        src = '\n'.join(head + ['    ' + t for t, _ in good]) + '\n'
+        case = Case(isa, src, start=0x200, isa_yaml=yaml)
+        out = acc.run(case)
+        spec = {'expect': 'OK', 'image_hex': b''.join(bytes(e) for _, e in good).hex(), 'statement': 'all accepted statements in a row'}
+        msg = judge_expect(spec, [out])
+        if msg:
+            acc.violation([case], spec, f'accepted statements in a row: {msg}', [out])
+        acc.judge(clause=clause + '/in-a-row', nontrivial_distinct=True)
+    if good:
+        for t, why in bad:
+            src = '\n'.join(head + ['    ' + g for g, _ in good] + ['    ' + t]) + '\n'
+            case = Case(isa, src, start=0x200, isa_yaml=yaml)
+            out = acc.run(case)
+            spec = {'expect': 'REJECT', 'why': why, 'statement': f'{t} after {len(good)} accepted statements'}
+            msg = judge_expect(spec, [out])
+            if msg:
+                acc.violation([case], spec, f'{t!r} after the accepted statements: {msg}', [out])
+            acc.judge(clause=clause + '/in-a-row', nontrivial_distinct=True)
+
+
 def boundary_values(w):
     return [0, 1, (1 << (w - 1)) - 1, 1 << (w - 1), (1 << w) - 1, 1 << w, -1, -(1 << (w - 1)), -(1 << (w - 1)) - 1, (1 << w) + 1]
 
@@ -93,6 +121,7 @@ def shard(acc, tier, idx, n):
                     for kname, sh, fmt in kinds:
                         ins = G.InstrSpec('tst', (op[0], op[1]), None, None, [sh])
                         isa = G.build_isa([ins], 'big')
+                        items = []
                         for v in boundary_values(w):
                             if kname == 'nbc' and v < 0:
                                 continue        # min is 0 for this operand: covered in (ii)
@@ -116,6 +145,8 @@ def shard(acc, tier, idx, n):
                                 ordered, isize, _ = ins.fields('big', (inst,), 0x200)
                                 exp = refenc.encode(ordered)
                             one(acc, isa, text, exp, 'range', why=f'{v} does not fit {w} bits')
+                            items.append((text, exp, f'{v} does not fit {w} bits'))
+                        batch(acc, isa, items, 'range')
     # ---- (ii) numeric_bytecode min / max --------------------------------------------------------------------
     for w in (2, 3, 5, 8):
         top = (1 << w) - 1
@@ -136,6 +167,7 @@ def shard(acc, tier, idx, n):
             sh = dict(sh, cfg=cfg)
             ins = G.InstrSpec('tst', (0xA, 4), None, None, [sh])
             isa = G.build_isa([ins], 'big')
+            items = []
             for v in sorted({lo - 1, lo, lo + 1, hi - 1, hi, hi + 1, top, top + 1, 0, -1}):
                 ok = lo <= v <= hi and refenc.fits(v, w)
                 exp = None
@@ -143,6 +175,8 @@ def shard(acc, tier, idx, n):
                     ordered, _, _ = ins.fields('big', ((G.lit(v), (v, w), None),), 0x200)
                     exp = refenc.encode(ordered)
                 one(acc, isa, 'tst ' + G.lit(v), exp, 'minmax', why=f'{v} outside {lo}..{hi} or {w} bits')
+                items.append(('tst ' + G.lit(v), exp, f'{v} outside {lo}..{hi} or {w} bits'))
+            batch(acc, isa, items, 'minmax')
     # ---- (ii-b) a numeric_bytecode index inside an indexed register: the index has its own field inside the composite code ---------
     for w, indirect in itertools.product((3, 4), (False, True)):
         half, top = 1 << (w - 1), (1 << w) - 1
@@ -168,24 +202,33 @@ def shard(acc, tier, idx, n):
             if ctr % n != idx:
                 continue
             table = {k: (k * 3 + 1) % 8 for k in keys}
-            for where in ('code', 'arg'):
+            # 'both': a code enumeration and an argument enumeration with a different key set and different values: a value has to be in each
+            table2 = {k: 0x40 + 5 * k for k in list(keys)[:-1] + [max(keys) + 1]}
+            for where in ('code', 'arg', 'both'):
                 cfgd = {'type': 'numeric_enumeration'}
-                if where == 'code':
+                if where in ('code', 'both'):
                     cfgd['bytecode'] = {'size': 3, 'value_dict': dict(table)}
-                else:
+                if where == 'arg':
                     cfgd['argument'] = {'size': 8, 'byte_align': True, 'value_dict': dict(table)}
+                if where == 'both':
+                    cfgd['argument'] = {'size': 8, 'byte_align': True, 'value_dict': dict(table2)}
                 sh = {'kind': 'numeric_enumeration', 'cfg': (lambda de, c=cfgd: c), 'pos': 'suffix', 'align': True, 'endian': None,
                       'insts': [], 'needs': {'yaml'}}
                 ins = G.InstrSpec('tst', (0xA, 4), None, None, [sh])
                 isa = G.build_isa([ins], 'big')
-                for v in range(-1, 6):
+                items = []
+                for v in range(-1, 7):
                     exp = None
-                    if v in table:
-                        inst = (str(v), (table[v], 3), None) if where == 'code' else (str(v), None, (table[v], 8))
+                    if v in table and (where != 'both' or v in table2):
+                        inst = (str(v), (table[v], 3), None) if where == 'code' else (str(v), None, (table[v], 8)) if where == 'arg' \
+                            else (str(v), (table[v], 3), (table2[v], 8))
                         ordered, _, _ = ins.fields('big', (inst,), 0x200)
                         exp = refenc.encode(ordered)
                     one(acc, isa, 'tst ' + G.lit(v), exp, 'enumeration', yaml=True, why=f'{v} not a key of {sorted(table)}')
                     one(acc, isa, f'tst KQ+{v + 1}', exp, 'enumeration', yaml=True, consts=[('KQ', -1)], why=f'{v} not a key')
+                    items.append(('tst ' + G.lit(v), exp, f'{v} not a key of {sorted(table)}'))
+                    items.append((f'tst KQ+{v + 1}', exp, f'{v} not a key'))
+                batch(acc, isa, items, 'enumeration', yaml=True, consts=[('KQ', -1)])
     # ---- (iv) zones -----------------------------------------------------------------------------------------------
     grids = [(None, (0x10, 0x1F)), ((0x08, 0x7F), (0x10, 0x1F)), ((0x08, 0x7F), (0x08, 0x0F)), (None, (0, 0)), ((0x20, 0xFF), (0xF0, 0xFF))]
     for g, z in grids:
